@@ -18,7 +18,7 @@ func init() {
 		Title: "stored signatures stay with their artifact; hostile referrers are refused before their content is used",
 		Run:   runC19,
 		Explain: "structural clauses of the round-trip property, decided on all paths: " +
-			"(a) size caps: every read of a descriptor's content in the registry package (content.FetchAll, content.ReadAll, Fetch on an oras-go storage) is reachable only through `D.Size <= positive constant` on the very descriptor D it reads (per loop iteration inside loops; when D is a parameter of an unexported helper that does not test it, at every call site of the helper); " +
+			"(a) size caps: every read of a descriptor's content in the registry package (content.FetchAll, content.ReadAll, Fetch on an oras-go storage) is reachable only through `D.Size <= positive constant` on the very descriptor D it reads (per loop iteration inside loops; when the read stands in an unexported helper that does not test D, or tests it against an integer parameter, at every call site of the helper, with the constant passed there), and the constant is at most the cap of the reference tree for what the bytes are used for: 4 MiB for content decoded as a manifest, 32 MiB for the envelope FetchSignatureBlob returns; " +
 			"(b) fetch: FetchSignatureBlob succeeds only through the manifest lookup, the blob cap and the fetch of the looked-up descriptor (FetchAll, or a module function that is Fetch + ReadAll on one descriptor), returning that fetch's bytes and that descriptor; the lookup succeeds only for the two manifest media types " +
 			"(tested in the lookup or in a helper that succeeds only through such a test — an edge of the helper or the comparison it returns —, or by membership in a read-only package-level table whose constant keys are the two types), through the manifest cap, the fetch of the capped descriptor, a decode (inline, in a helper, or in the function a read-only media-type -> decoder table holds under that media type) into the manifest type that belongs to the media type, and exactly one layer/blob, returning element 0 of the decoded list; the blob store is decided on every value the fetcher expression can take (phis, returns of an accessor function); " +
 			"(c) listing: the listing either asks the referrers API for (subject, notation artifact type) or filters predecessors: an element is appended only, per iteration and per media type (on the paths an element of that media type can take, whatever the dispatch looks like), through cap, fetch, decode into a per-iteration fresh target of the right type, " +
@@ -31,19 +31,36 @@ func init() {
 
 var c19CapRe = regexp.MustCompile(`^(LE|LT)\((.*)\.Size,const:(-?\d+)\)$`)
 
-// c19Capped: labels contain `d.Size <= K` with K > 0.
+// the same comparison with the bound on the left (`limit < d.Size` failing, after the parameter became a constant)
+var c19CapRevRe = regexp.MustCompile(`^(GE|GT)\(const:(-?\d+),(.*)\.Size\)$`)
+
+// c19Capped: labels contain `d.Size <= K` with K > 0 (`d.Size < N` is `d.Size <= N-1`); the smallest such K.
 func c19Capped(labels map[string]string, d string) (int64, bool) {
+	best, found := int64(0), false
 	for _, l := range labelList(labels) {
-		m := c19CapRe.FindStringSubmatch(l)
-		if m == nil || m[2] != d {
+		var op, dd, num string
+		if m := c19CapRe.FindStringSubmatch(l); m != nil {
+			op, dd, num = m[1], m[2], m[3]
+		} else if m := c19CapRevRe.FindStringSubmatch(l); m != nil {
+			op, dd, num = m[1], m[3], m[2]
+		} else {
 			continue
 		}
-		k, err := strconv.ParseInt(m[3], 10, 64)
-		if err == nil && k > 0 && k <= 1<<31 {
-			return k, true
+		if dd != d {
+			continue
+		}
+		k, err := strconv.ParseInt(num, 10, 64)
+		if err != nil {
+			continue
+		}
+		if op == "LT" || op == "GT" {
+			k--
+		}
+		if k > 0 && k <= 1<<31 && (!found || k < best) {
+			best, found = k, true
 		}
 	}
-	return 0, false
+	return best, found
 }
 
 func runC19(c *Ctx) {
@@ -100,43 +117,9 @@ func fieldStores(fn *ssa.Function, base ssa.Value, field string) []*ssa.Store {
 	return out
 }
 
-// (a) every FetchAll is capped on its own descriptor
+// (a) every FetchAll is capped on its own descriptor, by the cap that belongs to what the bytes are used for
 func c19Caps(c *Ctx) {
-	w := c.W
-	rule := "size cap before use: a read of D's content (content.FetchAll(_, _, D), content.ReadAll(_, D), x.Fetch(_, D)) is reachable only through `D.Size <= K` (K a positive constant) on the same descriptor D, which is not modified in between"
-	// The sinks are the calls that read, or allocate room for, what a descriptor declares: content.FetchAll(_, _, D),
-	// content.ReadAll(_, D) (both allocate D.Size bytes) and x.Fetch(_, D) on an oras-go storage. The cap is decided
-	// where the sink stands; when the sink's descriptor is a parameter of an unexported helper that does not test it
-	// itself, the same obligation is decided at each call site of the helper for the argument bound to that
-	// parameter (c19CapDecide): a fetch moved into `fetch(ctx, src, d)` is capped iff every caller caps its `d`.
-	var sites []c19CapSite
-	for _, fn := range w.FuncsOfPkg("registry") {
-		for _, ci := range allCalls(fn) {
-			D := c19SinkDesc(ci)
-			if D == nil {
-				continue
-			}
-			c.SeenFn(fn.String())
-			c.Evals++
-			c19CapDecide(w, fn, ci, D, 0, &sites)
-		}
-	}
-	sites = c19SortSites(sites)
-	n := len(sites)
-	perFn := map[string]int{}
-	for _, s := range sites {
-		c.SeenFn(s.fn.String())
-		perFn[fnName(s.fn)]++
-		key := fmt.Sprintf("cap-before-fetch/%s#%d", fnName(s.fn), perFn[fnName(s.fn)])
-		if s.ok {
-			c.OK(key, rule+fmt.Sprintf(" [K=%d]", s.K), w.InstrPos(s.in))
-		} else {
-			c.Bad(key, rule, w.InstrPos(s.in), s.detail)
-		}
-	}
-	if n < 2 {
-		c.Unk("cap-before-fetch#count", "vacuity guard: the registry package fetches at least a manifest and a blob", "-", fmt.Sprintf("%d sites (4 on the reference tree)", n))
-	}
+	c19CapRules(c)
 }
 
 func c19Iface(c *Ctx, method string) *ssa.Function {
@@ -643,6 +626,15 @@ func c19Referrers(c *Ctx, SR *ssa.Function) {
 					fetch, FF = fs.Call, fr
 				}
 			}
+		}
+		// (or rule (a) decided this very fetch capped on its descriptor — with the constants the call sites pass, which the
+		// composed facts do not evaluate: c19CapProved)
+		if !capOK && fetch != nil {
+			chain := []ssa.Instruction{fetch}
+			for fr := FF; fr != nil && fr.call != nil; fr = fr.parent {
+				chain = append(chain, fr.call)
+			}
+			capOK = c19CapProved(w, chain...)
 		}
 		c.Check(capOK, key+"/cap", "per iteration: the referrer's declared size is capped before it is fetched", w.InstrPos(app), summarizeLabels(facts, 6))
 		c.Check(fetch != nil, key+"/fetch-error", "per iteration: FetchAll(current referrer) err == nil", w.InstrPos(app), summarizeLabels(facts, 6))
